@@ -419,8 +419,9 @@ class _Gen:
         self.profile = profile
         self.next_id = 1
         self.tock = rng.choice(TOCKS)
-        self.p_ops = {"mixed": 0.15, "ops": 0.45, "faults": 0.08, "time": 0.0, "plain": 0.0}[profile]
-        self.p_fault = {"mixed": 0.08, "ops": 0.05, "faults": 0.22, "time": 0.0, "plain": 0.0}[profile]
+        # "selfrm": pool doers may remove themselves while running and be extended again (known finding C01-K2)
+        self.p_ops = {"mixed": 0.15, "ops": 0.45, "faults": 0.08, "time": 0.0, "plain": 0.0, "selfrm": 0.5}[profile]
+        self.p_fault = {"mixed": 0.08, "ops": 0.05, "faults": 0.22, "time": 0.0, "plain": 0.0, "selfrm": 0.03}[profile]
         self.always = False
         # "lagging" programs: many yields shorter than the tock, then longer non-multiples (cumulative due tymes matter)
         self.lag = profile in ("time", "plain", "mixed") and rng.random() < 0.4
@@ -443,10 +444,10 @@ class _Gen:
     def retv(self):
         return self.rng.choice([True, True, None, False])
 
-    def leaf(self, sibs, npool, in_pool, allow_ops=True):
+    def leaf(self, i, sibs, npool, in_pool, allow_ops=True):
         """sibs: ids this doer may name in remove (members of its scheduler incl. itself, pool ids)"""
         r = self.rng
-        i = self.nid()
+        selfrm = False
         act = "ok"
         k = r.random()
         if k < self.p_fault / 2:
@@ -465,9 +466,12 @@ class _Gen:
                             ks.append(npool + 1)      # out of range index: ignored by the builder
                         ops.append(("extend", ks))
                     else:
-                        cand = [x for x in sibs() if not (in_pool and x == i)]
+                        cand = [x for x in sibs() if x != i]
                         if in_pool is False and r.random() < 0.2:
                             cand.append(i)
+                        if in_pool and self.profile == "selfrm" and r.random() < 0.5:
+                            cand = [i]
+                            selfrm = True
                         if cand:
                             if r.random() < 0.35:
                                 # both sides of the remover at once: every other member, or the two neighbours
@@ -488,12 +492,11 @@ class _Gen:
             if out in ("raise", "kbint") or out[0] == "ret":
                 break
         spec = ("leaf", i, "doify", act, steps)
-        shapes = [s for s in SHAPES if shape_ok(("leaf", i, s, act, steps))]
+        shapes = [s for s in SHAPES if shape_ok(("leaf", i, s, act, steps)) and not (selfrm and s == "plain")]
         return ("leaf", i, r.choice(shapes), act, steps)
 
-    def group(self, depth, in_pool, allow_ops=True):
+    def group(self, g, depth, in_pool, allow_ops=True):
         r = self.rng
-        g = self.nid()
         tock = r.choice([0.0, 0.0, 0.0, self.tock, 2 * self.tock, 0.1])
         always = r.random() < 0.2
         self.always = self.always or always
@@ -503,18 +506,17 @@ class _Gen:
 
     def members(self, depth, nk, npool, allow_ops=True):
         r = self.rng
-        ids = []
-        sibs = lambda: list(ids)
         kinds = ["g" if (depth < 3 and r.random() < 0.25) else "l" for _ in range(nk + npool)]
+        ids = [self.nid() for _ in kinds]      # members (kids then pool) get their ids first: removes can name any of them
+        sibs = lambda: list(ids)
         out = []
         for n, kd in enumerate(kinds):
             in_pool = n >= nk
             if kd == "g":
-                s = self.group(depth, in_pool, allow_ops)
+                s = self.group(ids[n], depth, in_pool, allow_ops)
             else:
-                s = self.leaf(sibs, npool, in_pool, allow_ops)
+                s = self.leaf(ids[n], sibs, npool, in_pool, allow_ops)
             out.append(s)
-        ids.extend(s[1] for s in out)
         return out[:nk], out[nk:]
 
 
